@@ -55,6 +55,56 @@ NAMES = ["a", "b", "pool", "dists", "x.deb", "it's", "sp ace", "$HOME", "back\\s
          "semi;colon", "tab\there", "*", "..x", "'", "a'b'c", "`id`", "ünï", "'; echo pwned; '", ".hidden"]
 
 
+
+def cleaner_queues(cl):
+    """the files and the folders a PathCleaner has queued for removal.  Private attributes, found by name and
+    otherwise by what they are: the collections of paths whose lengths are the public clean_files_count /
+    folders_count and whose members are files / directories."""
+    def paths(n, v):
+        return isinstance(v, (list, set, tuple, frozenset)) and all(isinstance(x, Path) for x in v)
+    fq = C.priv(cl, ["_files_queue"], None, None)
+    dq = C.priv(cl, ["_folders_queue"], None, None)
+    if fq is None or dq is None:
+        cands = [(n, v) for n, v in vars(cl).items() if paths(n, v) and "keep" not in n and "need" not in n]
+        byname_f = [v for n, v in cands if "file" in n and "folder" not in n and "dir" not in n]
+        byname_d = [v for n, v in cands if "folder" in n or "dir" in n]
+        if fq is None:
+            if len(byname_f) == 1:
+                fq = byname_f[0]
+            else:
+                fs_ = [v for n, v in cands if len(v) == cl.clean_files_count and v
+                       and all(not (x.is_dir() and not x.is_symlink()) for x in v)]
+                fq = fs_[0] if fs_ else []
+        if dq is None:
+            if len(byname_d) == 1:
+                dq = byname_d[0]
+            else:
+                ds_ = [v for n, v in cands if len(v) == cl.folders_count and v and v is not fq]
+                dq = ds_[0] if ds_ else []
+    return list(fq), list(dq)
+
+
+def cleaner_allowed(cl):
+    """the wipe-guard verdict of a PathCleaner.  By the private method when it is there; otherwise by what a
+    generated clean script contains (the script lists removals only when cleaning is allowed)."""
+    f = getattr(cl, "_clean_allowed", None)
+    if callable(f):
+        return bool(f())
+    import io
+
+    class Repo:
+        url = "http://verif.invalid/"
+
+        def __str__(self):
+            return self.url
+    buf = io.StringIO()
+    cl.write_clean_script(buf, repository=Repo())
+    fq, dq = cleaner_queues(cl)
+    if not fq and not dq:
+        return True
+    return "rm " in buf.getvalue()
+
+
 def gen_tree(rng, depth=0):
     """nested dict: name -> int (file size) | dict (dir) | ('sym', target)"""
     d = {}
@@ -207,10 +257,11 @@ def run_case(rep, case, sb: Path):
     keep_paths = {Path(*k) if k else Path(".") for k in keep}
     sr, cr = case["size_ratio"], case["count_ratio"]
     cl = PathCleaner(copies["A"], set(keep_paths), wipe_size_ratio=sr or None, wipe_count_ratio=cr or None)
-    files_q = sorted("/".join(p.relative_to(copies["A"]).parts) for p in cl._files_queue)
-    dirs_q = sorted("/".join(p.relative_to(copies["A"]).parts) for p in cl._folders_queue)
+    fq, dq = cleaner_queues(cl)
+    files_q = sorted("/".join(p.relative_to(copies["A"]).parts) for p in fq)
+    dirs_q = sorted("/".join(p.relative_to(copies["A"]).parts) for p in dq)
     try:
-        allowed = cl._clean_allowed()
+        allowed = cleaner_allowed(cl)
     except ZeroDivisionError:
         allowed = None
         found = True
@@ -280,7 +331,8 @@ def run_case(rep, case, sb: Path):
             body = text.split("...'\n", 1)[1] if "...'\n" in text else ""
             if body.startswith("\n"):
                 body = body[1:]
-            cmds = [(True, str(f.absolute())) for f in cl2._files_queue] + [(False, str(f.absolute())) for f in cl2._folders_queue]
+            fq2, dq2 = cleaner_queues(cl2)
+            cmds = [(True, str(f.absolute())) for f in fq2] + [(False, str(f.absolute())) for f in dq2]
             rows["script"] = (case, clist(ctuple(cbool(a), cstr(b)) for a, b in cmds), cstr(body))
             rows["words"] = (case, clist(ctuple(cbool(a), cstr(b)) for a, b in cmds),
                              clist(clist(cstr(w) for w in (["rm", "-f" if a else "-r", b])) for a, b in cmds))
